@@ -459,15 +459,41 @@ def run(ctx):
     cmds, exp, tags = [], [], []
     rc = ctx.rng("c05", "column-named attributes")
     n = 400 if not ctx.thorough else 6000
-    for i in range(n):
+    # directed, every run: for each importer and each column that can be exempted, three arrivals of one key that differ in
+    # that column only - merged into one feature whose column holds the comma-joined set (create_db and update); and
+    # arrivals whose coordinates differ only beyond 2**53 (they are different columns: no merge)
+    directed = []
+    for fmt_ in ("gff3", "gtf"):
+        for col in EXEMPTABLE:
+            alt = {"seqid": "chr2", "source": "B", "featuretype": "CDS", "score": "5", "strand": "-", "frame": "0"}[col]
+            b0 = {"seqid": "chr1", "source": "A", "featuretype": "exon", "start": 10, "end": 500, "score": ".", "strand": "+",
+                  "frame": "."}
+            arr = [{"key": "d0", "cols": dict(b0), "attrs": {"Name": ["u"]}, "parents": ["P1"]},
+                   {"key": "d0", "cols": dict(b0, **{col: alt}), "attrs": {"Note": ["v"]}, "parents": []},
+                   {"key": "d0", "cols": dict(b0), "attrs": {"tag": ["w"]}, "parents": ["P2"]}]
+            for upd in (False, True):
+                directed.append((fmt_, "merge", [col], arr, upd))
+        big = {"seqid": "chr1", "source": "A", "featuretype": "exon", "start": 9007199254740992, "end": 9007199254740999,
+               "score": ".", "strand": "+", "frame": "."}
+        directed.append((fmt_, "merge", [], [{"key": "h0", "cols": dict(big), "attrs": {"Name": ["u"]}, "parents": []},
+                                              {"key": "h0", "cols": dict(big, start=9007199254740993), "attrs": {"Note": ["v"]},
+                                               "parents": []}], False))
+    for i in range(n + len(directed)):
         fmt = "gff3" if r.random() < 0.7 else "gtf"
         strategy = r.choice(["error", "warning", "replace", "create_unique", "merge", "merge", "merge"])
         force = r.sample(EXEMPTABLE, r.choice([0, 0, 1, 2])) if strategy == "merge" else []
         arrivals = rand_arrivals(r, r.randrange(2, 8), r.choice([1, 1, 2]), fmt)
+        forced_update = None
+        if i >= n:
+            fmt, strategy, force, arrivals, forced_update = directed[i - n]
+            arrivals = [dict(a, cols=dict(a["cols"]), attrs={k: list(v) for k, v in a["attrs"].items()}) for a in arrivals]
+            res.count("directed_exempt_column_or_huge_coordinates")
         if rc.random() < 0.35:
             add_column_named(rc, arrivals)
             res.count("attribute_keys_named_like_columns")
         use_update = r.random() < 0.3
+        if forced_update is not None:
+            use_update = forced_update
         idspec = dbside.IdSpec() if fmt == "gff3" else dbside.IdSpec("L", [("a", "eid")], form="str")
         cfg = dbside.Cfg(idspec=idspec, strategy=strategy, force=force, disG=True, disT=True)
         lines = lines_of(arrivals, fmt)
